@@ -826,7 +826,23 @@ func handleFrame(dump string) string {
 		}
 		var fn []string
 		for _, l := range strings.Split(g, "\n") {
-			if strings.HasPrefix(l, "\t") || strings.HasPrefix(l, "goroutine ") {
+			if strings.HasPrefix(l, "goroutine ") {
+				// "goroutine 12 [chan receive, 2 minutes]:" -> only a goroutine that is parked
+				// in a blocking operation can be wedged; a runnable one is merely starved
+				st := l
+				if i := strings.Index(l, "["); i >= 0 {
+					st = strings.TrimRight(l[i+1:], "]:")
+					if j := strings.Index(st, ","); j >= 0 {
+						st = st[:j]
+					}
+				}
+				if st == "runnable" || st == "running" || st == "syscall" {
+					return ""
+				}
+				fn = append(fn, "["+st+"]")
+				continue
+			}
+			if strings.HasPrefix(l, "\t") {
 				continue
 			}
 			if i := strings.LastIndex(l, "("); i > 0 {
